@@ -47,5 +47,51 @@ P("C13", "exploration",
   [H("main", "h_crypto", 240, 24000)], [A_SAN, A_OSSL],
   {"signed.buffers-checked": 20000, "signed.accepted": 100, "signed.rejected": 10000})
 
+import post_codec  # noqa: E402
+
+P("C15", "exploration",
+  "case = one message: type = case%6, version = (case/6)%256 (all 256 versions per type), boundary-biased fields; oracle decode(encode(m)) == m with version clamped to 1..4 "
+  "and the announce nonce carried from version 3; distinct = (type, version, size class)",
+  [H("main", "h_codec", 6 * 256 * 4, 6 * 256 * 400)], [A_SAN],
+  {"codec.roundtrips": 6000, "codec.announce-v3plus": 500})
+
+P("C16", "exploration",
+  "case = batch of hostile inputs derived from a valid encoding (length fields set to 0/len+-k/2^31/2^32-1, every truncation, header mutations, trailing bytes, random bytes) "
+  "in exact-size heap buffers; oracle: no exception, no sanitizer report, re-encoding of anything accepted is a prefix of the input (boolean bytes by truthiness), "
+  "decode_signed with a reference MAC agrees with decode; distinct = (type, mode, length)",
+  [H("main", "h_codec", 4000, 600000)], [A_SAN, A_OSSL],
+  {"decode.inputs": 50000, "decode.accepted": 1000})
+
+P("C17", "exploration",
+  "case = one manifest with list sizes 0/1/254/255/256/257/300 and string lengths 0/1/254/255/256, 65534/65535/65536+ in one chosen dimension, any expiry in the time_point range; "
+  "independent predicate representable(m) decides: round trip equal up to whole-second expiry / empty scheme -> transport, or encode must throw; distinct = (dimension, representable, sizes)",
+  [H("main", "h_codec", 4000, 400000)], [A_SAN],
+  {"manifest.representable": 1500, "manifest.unrepresentable": 300, "manifest.roundtrips": 1500})
+
+P("C18", "exploration",
+  "case = batch of URIs derived from a valid manifest: expiry field set to u64 boundaries (0, 2^31, 2^33, INT64_MAX/1e9 +-1, 2^63-1, 2^63, 2^64-1, ...), every truncation, corrupted base64, "
+  "mutated fields/counts, random strings; oracle: returns or throws std::invalid_argument, nothing else, no UBSan/ASan report; distinct = (mode, size, case%64)",
+  [H("main", "h_codec", 3000, 500000)], [A_SAN, "UBSan decides the undefined-behaviour part (signed overflow in time conversions)"],
+  {"manifest.decode-inputs": 30000, "manifest.expiry-boundary-inputs": 3000})
+
+P("C33", "exploration",
+  "case = one datagram (exact-size heap copy): canonical Binding Success responses with unknown attributes around one (XOR-)MAPPED-ADDRESS (IPv4/IPv6), wrong type / transaction id, "
+  "attribute overrunning the declared message length but not the datagram, lying attribute lengths, misalignment, truncations, mutations, random bytes <= 512; "
+  "oracle = strict RFC 5389 reference walk (soundness) + canonical responses must be reported exactly; distinct = (mode, family, xor, reported, size)",
+  [H("main", "h_codec", 60000, 6000000)], [A_SAN],
+  {"stun.datagrams": 50000, "stun.address-reported": 10000, "stun.canonical": 10000})
+
+P("C37", "exploration",
+  "case = one log() call with event/field names/values drawn from all UTF-8 planes, every C0 control, DEL, quotes, backslashes, trailing backslash, U+2028/9, 0..50 fields, duplicate names; "
+  "every 50th case = 8 threads x 40 records concurrently; oracle = exactly one line + Python json.loads decodes event and ordered field pairs to the logged strings; distinct = (event, fields, line hash)",
+  [H("main", "h_codec", 20000, 400000, post=post_codec.post_c37)], [A_SAN, "Python's json module is the trusted JSON reference"],
+  {"log.records": 15000, "log.lines-parsed-by-python-json": 15000, "log.concurrent-lines-parsed": 10000})
+
+P("C38", "exploration",
+  "case = generated update-metadata document (random escaping of every code point incl. surrogate pairs, whitespace, extra nested values) checked against the strings it was built from and against Python json; "
+  "plus truncation at every byte, tiny prefixes, nesting depth up to 2e5 (quick) / 1e6 (thorough), random and mutated bytes in exact-size heap buffers; distinct = document hash / (mode, size)",
+  [H("main", "h_codec", 6000, 600000, post=post_codec.post_c38)], [A_SAN, "Python's json module is the trusted JSON reference; duplicate keys and lone surrogates are excluded (reference semantics differ)"],
+  {"meta.valid-documents": 2000, "meta.fields-compared": 20000, "meta.deep-nesting-inputs": 100, "meta.documents-cross-checked-with-python-json": 500})
+
 NOT_APPLICABLE = {}
 HOOK_COMMITS = []
